@@ -10,6 +10,8 @@
 #include "meta.h"
 #include "array.h"
 #include "vf.h"
+#include <algorithm>
+#include "cxx_itemarray.h"
 
 const char *vf_name = "c15_cxx";
 
@@ -198,9 +200,11 @@ static void case_meta(uint64_t idx, vf_rng *r)
 
 static uint64_t n_ref(void) { return vf_thorough ? 400000 : 40000; }
 static uint64_t n_meta(void) { return vf_thorough ? 300000 : 30000; }
-uint64_t vf_cases(void) { return n_ref() + n_meta(); }
+static uint64_t n_item(void) { return vf_thorough ? 150000 : 15000; }
+uint64_t vf_cases(void) { return n_ref() + n_meta() + n_item(); }
 void vf_case(uint64_t idx, vf_rng *r)
 {
 	if (idx < n_ref()) case_reference(r);
-	else case_meta(idx - n_ref(), r);
+	else if (idx < n_ref() + n_meta()) case_meta(idx - n_ref(), r);
+	else ia::run(r, "cxxitem");
 }
